@@ -8,7 +8,8 @@ import PlumpyModel.Ports.Spec
   attributes of that dynamic namespace; nothing else resolves (through a leaf port, undeclared in a non-dynamic
   namespace, an empty last name).
 * `AcceptsOut` — the output spec accepts `(path, value)`.
-* `Storable` — no emitted value that is not a mapping sits on the way to the place where the value is to be stored.
+* `Storable` — no emitted value that is not a plain `dict` (an atom, or an immutable mapping such as an
+  `AttributesFrozendict`) sits on the way to the place where the value is to be stored.
 -/
 namespace Ports
 
@@ -39,8 +40,14 @@ def Storable (outputs : Items) : List String → Prop
   | s :: rest =>
       match lookup s outputs with
       | none => True
-      | some (.dict _ sub) => Storable sub rest
+      | some (.dict false sub) => Storable sub rest
+      | some (.dict true _) => False           -- an immutable mapping is a value: nothing can be stored below it
       | some (.atom _ _) => False
+
+/-- a plain `dict` — the only kind of value the storage loop of `out` enters (`setdefault` / item assignment) -/
+def V.isDict : V → Bool
+  | .dict false _ => true
+  | _ => false
 
 /-- re-insert a list of listener notifications `(path, value, dynamic)`, oldest first -/
 def replay (outputs : Items) : List (List String × V × Bool) → Items
